@@ -80,6 +80,10 @@ def case(g, tier, ci):
         ops.append({"op": "sq.elChangeDur", "id": "s3", "pos": 1, "ch": chx, "name": "tail", "dur": enc(nd / SR), "all": False})
     ops += [{"op": "el.duration", "id": "e3"}, {"op": "el.points", "id": "e3"}, {"op": "el.duration", "id": "e3"},
             {"op": "sq.duration", "id": "s3"}, {"op": "sq.points", "id": "s3"}, {"op": "sq.duration", "id": "s3"}]
+    # a twin of the blueprint-only element that is never queried: `e3 == e30` before and after queries on `e3`
+    ops += [{"op": "el.new", "id": "e30"}, {"op": "el.addBP", "id": "e30", "ch": 1, "bp": "b"}, {"op": "el.addBP", "id": "e30", "ch": "B", "bp": "b"}]
+    for chx in (1, "B"):
+        ops.append({"op": "el.changeDur", "id": "e30", "ch": chx, "name": "tail", "dur": enc(nd / SR), "all": False})
     ops += snapshot(0)
     calls = []
     el_in_s = list(sinfo["els"].values())
@@ -101,7 +105,9 @@ def case(g, tier, ci):
                 c = {**c, "id": r.choice(el_in_s)}     # the source element of a stored one
         else:
             c = r.choice([{"op": "bp.desc", "id": "b"}, {"op": "bp.points", "id": "b"}, {"op": "bp.duration", "id": "b"},
-                          {"op": "bp.eq", "a": "b", "b": "b2"}, {"op": "bp.json", "id": "b", "to": "tmpb", "_nocmp": True}])
+                          {"op": "bp.eq", "a": "b", "b": "b2"}, {"op": "bp.json", "id": "b", "to": "tmpb", "_nocmp": True},
+                          {"op": "el.eq", "a": "e3", "b": "e30"}, {"op": "el.eq", "a": "e30", "b": "e3"},
+                          {"op": "el.points", "id": "e3"}])
         if r.random() < 0.12:
             # a mutation in between: the following read-only calls must reflect it (no stale cache), and are
             # again repeatable among themselves
